@@ -92,6 +92,13 @@ def gen_C14(v, n):
         out.append(_op("C14", {"a": rng.choice([s, l + ":" + s, v.c01_string()]),
                                "b": rng.choice([s, s2, l + ":" + s, l2 + ":" + s, rng.choice(v.labels) + ":" + s]),
                                "more": [s2, v.c01_string().replace("?", "")]}))
+    # Sids that another interpreter (another hash seed) built, hashed and pickled: equal Sids hash equally here
+    for _ in range(2):
+        uris = []
+        for _ in range(25):
+            l, s, f = v.typed_sid(search=0.3)
+            uris.append(rng.choice([s, l + ":" + s, rng.choice(v.labels) + ":" + s, v.c01_string()]))
+        out.append(_op("C14", {"pickled_elsewhere": [u for u in uris if "\x00" not in u]}))
     return out
 
 
@@ -519,7 +526,20 @@ def gen_C16(v, n):
                 i = keys.index(vk)
                 for last in ("*", ",".join(exts[:3]), ",".join(reversed(exts[:3]))):
                     multi.append("/".join(segs[:i] + [rng.choice([">", "*"])] + segs[i + 1:-1] + [last]))
-        for s in _searches(v, leaves, 6, allow_gt=0.1) + [rng.choice(ls)] + multi:
+        # SHORT searches whose unfolded forms span several basetypes and levels: some of their types have a Getter,
+        # some have none (which is which is the configuration's business)
+        short = []
+        for label, fields in leaves[:2]:
+            segs = [val for _, val in fields]
+            for depth in range(1, min(5, len(segs)) + 1):
+                stars = ["*"] * depth
+                short.append("/".join(segs[:1] + stars[1:]))
+                short.append("/".join(stars))
+            types = sorted({f[1][1] for _, f in leaves if len(f) > 1})
+            if types:
+                short.append("/".join([segs[0], ",".join(types + ["zz"]), "*"]))
+        short = rng.sample(sorted(set(short)), min(4, len(set(short))))
+        for s in _searches(v, leaves, 6, allow_gt=0.1) + [rng.choice(ls)] + multi + short:
             q = {"s": s, "enc": rng.choice(["str", "uri", "none"])}
             if rng.random() < 0.5:
                 q["attributes"] = rng.sample(["comment", "frames", "status", "sid", "nope"], rng.randint(1, 3))
@@ -565,7 +585,10 @@ def gen_C18(v, n):
                     for n in sorted(set(rng.sample(range(1, min(999, top + 6) + 1), min(3, min(999, top + 6))) + ([top + 1] if top < 999 else []))):
                         if n not in versions:
                             others.append([n, tail2])
-        out.append(_op("C18", {"task": task, "tail": tail, "versions": versions, "others": others, "publish": rng.choice([0, 3, 8])}))
+        rest = [val for _, val in fields[i + 1:]]
+        probe_tails = ["/" + "/".join(rest[:j]) for j in range(1, len(rest))] if tail else []
+        out.append(_op("C18", {"task": task, "tail": tail, "versions": versions, "others": others, "publish": rng.choice([0, 3, 8]),
+                               "probe_tails": probe_tails}))
     return out
 
 
